@@ -82,7 +82,7 @@ def gen_dataset_cfg(rng, flavor='general', big=False):
     if r < 0.03:
         cfg['nc'] = nc = rng.choice([13, 33, 40, 65])
     elif r < 0.05:
-        cfg['nt'] = nt = rng.choice([130, 257, 300])
+        cfg['nt'] = nt = rng.choice([130, 257, 300, 300, 400])
         cfg['ns'] = ns = max(ns, 60)
         if rng.random() < 0.5:
             cfg['dtypes']['ids'] = 'uint16'    # products of ids overflow 16 bits beyond 256 ids
@@ -96,6 +96,10 @@ def gen_dataset_cfg(rng, flavor='general', big=False):
         cfg['ks2_templates_ind'] = True
     if rng.random() < 0.12:
         cfg['tmpl_fortran'] = True
+    if rng.random() < 0.2:
+        cfg['filler_in_unused_columns'] = True
+    if rng.random() < 0.15:
+        cfg['feat_rows_perm'] = True
     for fam in ('times', 'stemplates', 'sclusters', 'amps', 'chmap'):
         if rng.random() < 0.3:
             cfg['colvec'].append(fam)
@@ -260,6 +264,9 @@ def build_gt(cfg):
         g.alf_times = (g.samples / g.sr).astype(np.float32)
     used = [t for t in range(nt) if t not in cfg['unused_templates']]
     g.stemplates = np.array([used[i] for i in rs.randint(0, len(used), size=ns)], dtype=np.int64)
+    if cfg.get('skew'):
+        # one template owns most of the spikes (more than 65535 of them in the large datasets)
+        g.stemplates[rs.rand(ns) < cfg['skew']] = used[0]
     # make sure every "used" template has a spike when possible
     perm = rs.permutation(ns)
     if len(used) > 2 * ns:
@@ -327,7 +334,9 @@ def build_gt(cfg):
             k = rs.randint(0, max(1, nloc - 1))
             if k and rs.rand() < 0.5:
                 cols[t, nloc - k:] = -1
-                data[t, :, nloc - k:] = 0
+                if not cfg.get('filler_in_unused_columns'):
+                    data[t, :, nloc - k:] = 0
+                # (else: whatever the sorter left in the padding columns stays there)
                 if nloc - k >= 3 and rs.rand() < 0.4:
                     # an unused column BEFORE real channels (not only trailing padding)
                     j = rs.randint(1, nloc - k - 1) if nloc - k - 1 > 1 else 1
@@ -371,6 +380,8 @@ def build_gt(cfg):
             if cfg.get('feat_rows_complete'):
                 k = ns       # a row table that lists every spike
             g.feat_rows = np.sort(rs.permutation(ns)[:k]).astype(np.int64)
+            if cfg.get('feat_rows_perm'):
+                g.feat_rows = g.feat_rows[rs.permutation(len(g.feat_rows))]   # not increasing
         else:
             g.feat_rows = None
         nrows = ns if g.feat_rows is None else len(g.feat_rows)
